@@ -79,10 +79,10 @@ MUTANTS = [
     ("save_resets_grid_of_original", "rockit/ocp.py", "        self._untranscribe()\n        import pickle", "        self._untranscribe()\n        if hasattr(self._method,'time_grid') and hasattr(self._method.time_grid,'_growth_factor'): self._method.time_grid._growth_factor = 1.0\n        import pickle", ["C18"]),
     # --- C10
     ("set_initial_column_offset", SM, "                    value_k = value[:,k]\n                try:", "                    value_k = value[:,k-1] if k>0 else value[:,k]\n                try:", ["C10"]),
-    ("set_initial_after_transcription_ignored_for_states", ST, "            self._method.set_initial(self._augmented, self.master._method, self._initial)", "            self._method.set_initial(self._augmented, self.master._method, HashOrderedDict([(k,v) for k,v in self._initial.items() if k not in self.states or self._method.N<3]))", ["C10"]),
+    ("set_initial_after_transcription_ignored_for_states", ST, "            apply(self._augmented, self.master._method, self._initial)", "            apply(self._augmented, self.master._method, HashOrderedDict([(k,v) for k,v in self._initial.items() if k not in self.states or self._method.N<3]))", ["C10"]),
     ("dc_roots_guess_at_interval_start", DC, "expr_integrator_root = ca.hcat([self.eval_at_integrator_root(stage, expr, k, i, j) for k in list(range(self.N)) for i in range(self.M) for j in range(self.degree) ])", "expr_integrator_root = ca.hcat([self.eval_at_integrator_root(stage, expr, k, i, 0) for k in list(range(self.N)) for i in range(self.M) for j in range(self.degree) ])", ["C10"]),
-    ("time_guess_uses_default_T", SM, "            T_init = opti.debug.value(self.T, opti.initial())", "            T_init = opti.debug.value(self.T, opti.initial()) if self.N!=2 else 1.0", ["C10"]),
-    ("global_var_guess_doubled", "rockit/direct_method.py", "            opti.set_initial(target, value, cache_advanced=True)", "            opti.set_initial(target, 2*value, cache_advanced=True)", []),
+    ("time_guess_uses_default_T", SM, "        T_init = opti.debug.value(self.T, opti.initial())", "        T_init = opti.debug.value(self.T, opti.initial()) if self.N!=2 else 1.0", ["C10"]),
+    ("global_var_guess_doubled", "rockit/direct_method.py", "            opti.set_initial(target, value, cache_advanced=True)", "            opti.set_initial(target, 2*value, cache_advanced=True)", ["C10"]),
     # --- C13
     ("subject_to_no_invalidate", ST, "        self._set_transcribed(False)\n        #import ipdb; ipdb.set_trace()", "        #import ipdb; ipdb.set_trace()", ["C13"]),
     ("add_objective_no_invalidate", ST, "        self._set_transcribed(False)\n        self._objective = self._objective + term", "        self._objective = self._objective + term", ["C13"]),
